@@ -69,40 +69,57 @@ theorem C12_immediate (c : Cfg) (tr : List Ev) (p : ObjId) (x : Cid) (v : Val) :
   intro s h hi
   exact (invQ_run c tr _ (invQ_init c) p).imm x (by rw [h]; rfl) hi
 
-/-- "activity has stopped": no coalescing timer and no `call_soon` flush is pending anywhere -/
-def Quiescent (s : St) : Prop := ∀ p, ¬ pendingFlush s p
-
-/-- the events that drain connection `p`: its pending `call_soon` callbacks, then its timer -/
-def drainOf (s : St) (p : ObjId) : List Ev := List.replicate (s.obj p).soon (Ev.soonFlush p) ++ [Ev.timerFire p]
+/-- "activity has stopped": no coalescing timer and no `call_soon` flush is pending on any connection -/
+def Quiescent (s : St) : Prop := ∀ p, p < s.nobj → ¬ pendingFlush s p
 
 /-- **C12_quiescent** (statement). After every history respecting the reuse hypothesis, whenever
-    activity has stopped: every registered connection that has been subscribed to `x` without
-    interruption since the most recent notified change of `x` (ghost `since`) last learned — from
-    the latest event it received or its own acknowledged write, whichever came later (ghost
-    `learned`) — exactly the current value of `x` (always-null characteristics excluded). -/
+    activity has stopped: every connection that has been subscribed to `x` without interruption
+    since the most recent notified change of `x` (ghost `since`) is still registered and subscribed
+    and last learned — from the latest event it received or its own acknowledged write, whichever
+    came later (ghost `learned`) — exactly the current value of `x` (always-null characteristics
+    excluded from the value comparison). -/
 def C12_quiescent_statement (c : Cfg) : Prop :=
   ∀ tr : List Ev, ReuseOK c (init c) tr →
     let s := (run c (init c) tr).1
     Quiescent s → ∀ p x, (s.obj p).since x = true → c.nul x = false →
       registered s p ∧ subscribed s x (s.obj p).addr ∧ (s.obj p).learned x = s.value x
 
-/-- **C12_quiescent.** -/
+/-- **C12_quiescent.** Proved from the invariant
+    `since p x → queue p x ⊆ {value x} ∧ (learned p x = value x ∨ (queue p x = value x ∧ (timer p ∨ soon p)))`
+    (`InvL`), i.e. DESIGN's `owed(c,x) → queue c x = some (value x) ∧ (timer c ∨ soon c)` with
+    `owed c x := since c x ∧ learned c x ≠ value x`. Holds only with the C12 repair (`fix12`). -/
 theorem C12_quiescent (c : Cfg) (h12 : c.fix12 = true) (h13 : c.fix13 = true) : C12_quiescent_statement c := by
   intro tr hr s hq p x hs hn
   have hL : InvL c s := invL_run c h12 h13 tr hr
+  have hA : InvA s := invA_run c h13 tr _ (invA_init c)
   obtain ⟨g1, g2, g3⟩ := hL p x hs
   obtain ⟨v, v1, _, v3⟩ := g3 hn
   refine ⟨g1, g2, ?_⟩
   rcases v3 with h | h
   · rw [h, v1]
-  · exact absurd h.2 (hq p)
+  · exact absurd h.2 (hq p (registered_live s hA p g1).1)
 
-/-- **C12_drain.** Activity does stop: firing the pending callbacks and the timer of every
-    connection leaves no flush pending (and `C12_quiescent` applies to the resulting history, the
-    drain events being ordinary events). -/
-theorem C12_drain (c : Cfg) (s : St) (p : ObjId) (hp : p < s.nobj) :
-    ¬ pendingFlush (run c s (drainOf s p)).1 p :=
-  drain_not_pending c s p hp
+/-- **C12_drain.** Activity does stop: running the pending `call_soon` callbacks and the timer of
+    every connection (`drainAll`, ordinary events of the model) leaves no flush pending. -/
+theorem C12_drain (c : Cfg) (s : St) : Quiescent (run c s (drainAll s)).1 :=
+  drainAll_quiet c s
+
+/-- **C12_quiescent, "all traces, then drain" form.** After any history respecting the reuse
+    hypothesis followed by the drain, every connection subscribed to `x` since its last change has
+    learned the current value of `x`. -/
+theorem C12_quiescent_after_drain (c : Cfg) (h12 : c.fix12 = true) (h13 : c.fix13 = true) (tr : List Ev)
+    (hr : ReuseOK c (init c) tr) :
+    let s := (run c (init c) tr).1
+    let s' := (run c s (drainAll s)).1
+    ∀ p x, (s'.obj p).since x = true → c.nul x = false →
+      registered s' p ∧ subscribed s' x (s'.obj p).addr ∧ (s'.obj p).learned x = s'.value x := by
+  intro s s' p x hs hn
+  have hr' : ReuseOK c (init c) (tr ++ drainAll s) :=
+    (reuseOK_append c _ tr _).mpr ⟨hr, reuseOK_noConnect c _ (drainAll_noConnect s) _⟩
+  have e : (run c (init c) (tr ++ drainAll s)).1 = s' := run_append c _ tr _
+  have := C12_quiescent c h12 h13 (tr ++ drainAll s) hr'
+  simp only [e] at this
+  exact this (C12_drain c s) p x hs hn
 
 /-! ### the code before the repair -/
 
